@@ -84,6 +84,7 @@ func newE3Env(c *Ctx, r *core.Result) *e3Env {
 	if v, err := strconv.Atoi(os.Getenv("VERIF_K")); err == nil && v > 0 {
 		env.k = v // debugging
 	}
+	env.a = loadAnchors(c, r) // (also detects pure renames, which the residual list follows)
 	residualScope = func(listed, actual string) bool {
 		lf, af := c.P.FuncByQualName(listed), c.P.FuncByQualName(actual)
 		if lf == nil || af == nil || lf == af {
@@ -110,7 +111,6 @@ func newE3Env(c *Ctx, r *core.Result) *e3Env {
 	for _, re := range loadResiduals(c, r) {
 		env.resid[re.Rule+"|"+re.Func+"|"+re.Expr] = true
 	}
-	env.a = loadAnchors(c, r)
 	t, errs := tables.Extract(c.P)
 	for _, e := range errs {
 		r.Fail("T1", "-", "table extraction", "-", e.Error())
